@@ -75,3 +75,11 @@ claim("C22", "model_checking", "TLC trace validation: records logged from the re
       "Trusted: TLC, the in-package accessor exposing toUnified's hunks. 'Exactly the changed lines' is decided as: the hunks patch before into after and none is change-free. "
       "Open known finding: inputs with invalid UTF-8 (see known_findings.json).",
       "DESIGN.md section 4 C22")
+
+claim("C29", "model_checking", "TLA+ state machine of a program's life (TLC: contract invariants on every path) + one real `wa run` per terminal state",
+      "WaRun.tla: build, package initialisation, main, output, and 15 ways of ending (return, exit 0/1/3/255, three panics, five traps, two build errors) at four places "
+      "(main, callee, deferred call, init) in three surface syntaxes (.wa, .wz, .wat); TLC checks the status contract on every path and emits the 150 terminal states; each is "
+      "rendered as a program, run with the wa binary built from the working tree in a child process, and exit status and stdout prefix are compared.",
+      "Trusted: TLC, the three program renderers (a rendering that does not compile would show up as a status mismatch and was debugged out on the unchanged tree). "
+      ".wasm inputs and the --web path are not rendered.",
+      "DESIGN.md section 4 C29")
